@@ -2,8 +2,9 @@
    MODEL: faithful executable image of
      include/nmtools/array/index/{tile,repeat,roll,pad,take,compress,resize,concatenate,
        sliding_window}.hpp, view/{split,expand,diagonal,diagflat,tril,triu,tri,eye,where,
-       stack,hstack,vstack,dstack,column_stack,arange,linspace,full}.hpp  (tree at 4244a35:
-       index::roll reduces modulo the extent).
+       stack,hstack,vstack,dstack,column_stack,arange,linspace,full}.hpp  (tree with the fix: commits
+       index::roll modulo the extent; wrap_axis in repeat / take / compress / concatenate; negative take
+       entries; diagonal with negative offset / clamped length; arange empty range; linspace element 0).
    Every view is (shape function, index map dst index -> source designator): a view element
    is  src(indices(i));  pad / expand / tril / triu / diagflat / tri / eye return a "maybe"
    index (None = the fill operand), concatenate returns which operand is read.
@@ -32,6 +33,9 @@ Fixpoint map_at (k axis : Z) (f : Z -> Z) (l : list Z) : list Z :=
   | [] => []
   | x :: t => (if k =? axis then f x else x) :: map_at (k + 1) axis f t
   end.
+
+(* index::wrap_axis (normalize_axis.hpp): a negative axis is ndim + axis, anything else unchanged, no range check *)
+Definition wrap_axis (a d : Z) : Z := if a <? 0 then d + a else a.
 
 Definition neg_pos (l : list Z) (a : Z) : Z := if a <? 0 then zlen l + a else a.
 Definition in_range (l : list Z) (p : Z) : bool := (0 <=? p) && (p <? zlen l).
@@ -81,8 +85,10 @@ Definition repeat_none_index (s : list Z) (r : Z) (i : list Z) : list Z := compu
 (* with axis: ret = shape; at(ret,axis) = at(ret,axis) * repeats   (at: negative arm) *)
 Definition shape_repeat_axis (s : list Z) (r a : Z) : outcome (list Z) :=
   if in_range s (neg_pos s a) then Val (set_neg s a (at_neg s a * r)) else Trap.
-(* ret[i] = (i == axis) ? idx / repeats : idx *)
-Definition repeat_axis_index (i : list Z) (r a : Z) : list Z := map_at 0 a (fun x => x / r) i.
+(* axis = wrap_axis(axis_, len(shape)); ret[i] = (i == axis) ? idx / repeats : idx.
+   len(shape) = len(indices) on every path from the views (the result has the rank of the source), so the model
+   wraps with the length of the index it is given *)
+Definition repeat_axis_index (i : list Z) (r a : Z) : list Z := map_at 0 (wrap_axis a (zlen i)) (fun x => x / r) i.
 (* repeats given per element: at(ret,axis) = sum(repeats) (len(repeats) == shape[axis] is an assert only);
    index: first position k with idx < cumsum(repeats)[k]  (where(f,csum), at(arg,0)) *)
 Fixpoint cumsum_from (acc : Z) (l : list Z) : list Z :=
@@ -95,7 +101,7 @@ Fixpoint first_lt (k idx : Z) (csum : list Z) : Z :=
 Definition shape_repeat_list (s reps : list Z) (a : Z) : outcome (list Z) :=
   if in_range s (neg_pos s a) then Val (set_neg s a (sumz reps)) else Trap.
 Definition repeat_list_index (i reps : list Z) (a : Z) : list Z :=
-  map_at 0 a (fun x => first_lt 0 x (cumsum_from 0 reps)) i.
+  map_at 0 (wrap_axis a (zlen i)) (fun x => first_lt 0 x (cumsum_from 0 reps)) i.
 
 (* ------------------------------------------------------------------------------------------ *)
 (* roll (index/roll.hpp:14,69,104; view/roll.hpp)                                             *)
@@ -144,22 +150,34 @@ Fixpoint pad_index (i s w : list Z) : option (list Z) :=
   end.
 
 (* ------------------------------------------------------------------------------------------ *)
-(* take (index/take.hpp:17,56)                                                                *)
+(* take (index/take.hpp)                                                                      *)
 Definition shape_take_none (indices : list Z) : list Z := [zlen indices].
-(* the entry of [indices] (an int) is used as / stored into a size_t: a negative entry wraps to 2^64 - |x| *)
+(* an entry e of [indices] is read as nm_index_t; e < 0 counts from the end (e + numel / e + extent); the result is
+   stored into a size_t (wrap 64: an entry below -extent stays out of range) *)
+Definition take_entry (e n : Z) : Z := wrap 64 (if e <? 0 then e + n else e).
 Definition take_none_index (s indices i : list Z) : list Z :=
-  compute_indices3 (wrap 64 (znth indices (hd 0 i))) s (compute_strides s).
-Definition shape_take_axis (s indices : list Z) (a : Z) : list Z := map_at 0 a (fun _ => zlen indices) s.
-Definition take_axis_index (indices i : list Z) (a : Z) : list Z := map_at 0 a (fun x => wrap 64 (znth indices x)) i.
+  compute_indices3 (take_entry (znth indices (hd 0 i)) (product s)) s (compute_strides s).
+Definition shape_take_axis (s indices : list Z) (a : Z) : list Z :=
+  map_at 0 (wrap_axis a (zlen s)) (fun _ => zlen indices) s.
+(* res[i] = (i == axis) ? wrap(indices[dst_i]) : dst_i   with the extent shape[i] of the taken axis *)
+Fixpoint take_at (k axis : Z) (indices s i : list Z) : list Z :=
+  match i, s with
+  | x :: i', n :: s' => (if k =? axis then take_entry (znth indices x) n else x) :: take_at (k + 1) axis indices s' i'
+  | _, _ => []
+  end.
+Definition take_axis_index (s indices i : list Z) (a : Z) : list Z := take_at 0 (wrap_axis a (zlen s)) indices s i.
 
 (* ------------------------------------------------------------------------------------------ *)
 (* compress (index/compress.hpp): nonzero(condition) then as take                             *)
 Fixpoint nonzero_pos (k : Z) (c : list Z) : list Z :=
   match c with [] => [] | x :: t => if x =? 0 then nonzero_pos (k + 1) t else k :: nonzero_pos (k + 1) t end.
 Definition shape_compress_none (c : list Z) : list Z := [zlen (nonzero_pos 0 c)].
-Definition compress_none_index (s c i : list Z) : list Z := take_none_index s (nonzero_pos 0 c) i.
-Definition shape_compress_axis (s c : list Z) (a : Z) : list Z := shape_take_axis s (nonzero_pos 0 c) a.
-Definition compress_axis_index (c i : list Z) (a : Z) : list Z := take_axis_index (nonzero_pos 0 c) i a.
+Definition compress_none_index (s c i : list Z) : list Z :=
+  compute_indices3 (znth (nonzero_pos 0 c) (hd 0 i)) s (compute_strides s).
+Definition shape_compress_axis (s c : list Z) (a : Z) : list Z :=
+  map_at 0 (wrap_axis a (zlen s)) (fun _ => zlen (nonzero_pos 0 c)) s.
+Definition compress_axis_index (c i : list Z) (a : Z) : list Z :=
+  map_at 0 (wrap_axis a (zlen i)) (fun x => znth (nonzero_pos 0 c) x) i.
 
 (* ------------------------------------------------------------------------------------------ *)
 (* resize (index/resize.hpp:32,61): dims must agree, every requested extent > 0               *)
@@ -185,7 +203,7 @@ Fixpoint shape_concat_from (k axis : Z) (a b : list Z) : option (list Z) :=
   end.
 (* (success, shape): the view ignores [success] unless asserts are compiled in *)
 Definition shape_concat_axis (a b : list Z) (axis : Z) : outcome (list Z) :=
-  match shape_concat_from 0 axis a b with Some r => Val r | None => Nothing end.
+  match shape_concat_from 0 (wrap_axis axis (zlen a)) a b with Some r => Val r | None => Nothing end.
 Inductive operand := OpLeft (i : list Z) | OpRight (i : list Z) | OpNeither.
 Definition concat_none_index (a b i : list Z) : operand :=
   let na := product a in let nb := product b in let k := hd 0 i in
@@ -193,9 +211,10 @@ Definition concat_none_index (a b i : list Z) : operand :=
   else if k <? na + nb then OpRight (compute_indices (k - na) b)
   else OpNeither.
 Definition concat_axis_index (a b i : list Z) (axis : Z) : operand :=
-  let aa := at_neg a axis in let ba := at_neg b axis in let ia := at_neg i axis in
+  let w := wrap_axis axis (zlen a) in
+  let aa := znth a w in let ba := znth b w in let ia := znth i w in
   if ia <? aa then OpLeft (firstn (length a) i)
-  else if ia <? ba + aa then OpRight (firstn (length b) (map_at 0 axis (fun x => x - aa) i))
+  else if ia <? ba + aa then OpRight (firstn (length b) (map_at 0 w (fun x => x - aa) i))
   else OpNeither.
 
 (* stack family: reshape both operands, then concatenate (view/stack.hpp, hstack, vstack, dstack, column_stack) *)
@@ -307,10 +326,12 @@ Definition shape_diagonal (s : list Z) (offset a1 a2 : Z) : outcome (list Z) :=
       let s1 := znth s n1 in let s2 := znth s n2 in
       let s1 := if offset <? 0 then s1 + offset else s1 in
       let s2 := if 0 <? offset then s2 - offset else s2 in
-      Val (remove2 0 n1 n2 s ++ [if s1 <? s2 then s1 else s2])
+      let m := if s1 <? s2 then s1 else s2 in
+      Val (remove2 0 n1 n2 s ++ [if m <? 0 then 0 else m])
   | _, _ => Trap
   end.
-(* result[i] = next unused index for i not in {axis1, axis2}; result[axis1] = last; result[axis2] = last + offset *)
+(* result[i] = next unused index for i not in {axis1, axis2};
+   result[axis1] = last + (offset < 0 ? -offset : 0); result[axis2] = last + (offset > 0 ? offset : 0) *)
 Fixpoint diag_fill (k a1 a2 : Z) (n : nat) (i : list Z) : list Z :=
   match n with
   | O => []
@@ -319,7 +340,8 @@ Fixpoint diag_fill (k a1 a2 : Z) (n : nat) (i : list Z) : list Z :=
   end.
 Definition diagonal_index (d : nat) (i : list Z) (offset n1 n2 : Z) : list Z :=
   let last := last i 0 in
-  set_neg (set_neg (diag_fill 0 n1 n2 d i) n1 last) n2 (last + offset).
+  set_neg (set_neg (diag_fill 0 n1 n2 d i) n1 (last + (if offset <? 0 then - offset else 0)))
+          n2 (last + (if 0 <? offset then offset else 0)).
 
 (* diagflat (view/diagflat.hpp): flatten, (n+|k|) x (n+|k|), fill 0 *)
 Definition shape_diagflat (n k : Z) : list Z := [n + Z.abs k; n + Z.abs k].
@@ -352,18 +374,19 @@ Definition where_index (cs xs ys : list Z) (cond : list Z -> Z) (i : list Z) : o
   end.
 
 (* generators.  arange (index/arange.hpp, view/arange.hpp): integer start/stop, step = p/q (q > 0):
-   count = ceil_(float(stop-start)/step); ceil_ of a negative number converts a negative float to size_t (UB) *)
+   count = ceil_(float(stop-start)/step); ceil_ returns 0 for a quotient that is not positive (empty range) *)
 Definition ceil_div (a b : Z) : Z := - ((- a) / b).
 Definition arange_len (start stop p q : Z) : outcome Z :=
   if p =? 0 then Trap
   else let num := (stop - start) * q in
-       if (num * p <? 0) then Trap else Val (ceil_div num p).
+       if (num * p <=? 0) then Val 0 else Val (ceil_div num p).
 (* element i, as a numerator over q *)
 Definition arange_elem (start p q i : Z) : Z := start * q + i * p.
-(* linspace (view/linspace.hpp): step = (stop-start)/(endpoint ? num-1 : num); element i = start + i*step,
+(* linspace (view/linspace.hpp): step = (stop-start)/(endpoint ? num-1 : num); element 0 = start, element i = start + i*step,
    as the pair (numerator, denominator); denominator 0 = division by zero (inf/nan in float) *)
 Definition linspace_elem (start stop num : Z) (endpoint : bool) (i : Z) : Z * Z :=
-  let dv := if endpoint then num - 1 else num in (start * dv + i * (stop - start), dv).
+  let dv := if endpoint then num - 1 else num in
+  if i =? 0 then (start, 1) else (start * dv + i * (stop - start), dv).
 
 (* ========================================================================================== *)
 (* SPEC — NumPy / documented definitions                                                      *)
